@@ -26,7 +26,8 @@ Record srec := mkS {
   s_will_at : option Z                 (* absolute deadline of a delayed will *)
 }.
 
-Record st := mkSt { now : Z; sess : list (sid * srec); preempt : bool; stopped : bool }.
+(* [retained]: the retained message (tag) per topic — kept by the topics provider, persisted at shutdown *)
+Record st := mkSt { now : Z; sess : list (sid * srec); preempt : bool; stopped : bool; retained : list (topic * N) }.
 
 Inductive closereason := RTakenOver | RShutdown.
 Inductive out :=
@@ -40,8 +41,11 @@ Inductive ev :=
 | EConnect (c : cid) (id : sid) (v5 clean : bool) (expiry : option Z) (w : option will)
 | ESubscribe (id : sid) (t : topic)
 | EPublish (tag : N) (t : topic)                     (* by some other client, QoS 1 *)
+| ERetain (tag : N) (t : topic)                      (* the same with the RETAIN flag: also replaces the topic's retained message *)
+| EUnretain (t : topic)                              (* retained publish with empty payload: the retained message is removed *)
 | EDisconnect (id : sid) (with_will : bool) (expiry : option Z)   (* the client's DISCONNECT *)
 | EDrop (id : sid)                                   (* the connection ends without DISCONNECT *)
+| EDropC (c : cid) (id : sid)                        (* connection [c] ends without DISCONNECT (nothing happens if it is no longer attached) *)
 | ETick (dt : Z)
 | EStop                                              (* Manager.Stop + Shutdown *)
 | ERestart.                                          (* a new Manager over the same persistence *)
@@ -90,7 +94,7 @@ Definition conn_end (s : st) (id : sid) (keep_will : bool) (newexp : option Z) :
               pending
               (match pending with Some x => Some (now s + w_delay x) | None => None end)
         else wiped r in
-      (mkSt (now s) (put id r1 (sess s)) (preempt s) (stopped s), now_will)
+      (mkSt (now s) (put id r1 (sess s)) (preempt s) (stopped s) (retained s), now_will)
   end.
 
 (* CONNECT for a client id without an attached connection *)
@@ -100,7 +104,7 @@ Definition connect_free (s : st) (c : cid) (id : sid) (v5 clean : bool) (expiry 
   let r0 := if clean then wiped r else r in
   let present := s_present r0 in
   let r1 := mkS (Some c) v5 (durable_of v5 clean expiry) expiry (s_subs r0) [] true None w None in
-  (mkSt (now s) (put id r1 (sess s)) (preempt s) (stopped s),
+  (mkSt (now s) (put id r1 (sess s)) (preempt s) (stopped s) (retained s),
    [OConnack c present 0%N] ++ map (ODeliver c) (s_queue r0)).
 
 (* CONNECT: an identifier in use is taken over — the old connection ends first, as an abnormal end
@@ -153,15 +157,23 @@ Definition publish (s : st) (tag : N) (t : topic) : st * list out :=
       end
     else (l ++ [(i, r)], os) in
   let '(l, os) := fold_left step (sess s) ([], []) in
-  (mkSt (now s) l (preempt s) (stopped s), os).
+  (mkSt (now s) l (preempt s) (stopped s) (retained s), os).
 
-Definition subscribe (s : st) (id : sid) (t : topic) : st :=
+Definition retained_of (t : topic) (l : list (topic * N)) : list N :=
+  map snd (filter (fun x => N.eqb (fst x) t) l).
+Definition set_retained (t : topic) (tag : option N) (l : list (topic * N)) : list (topic * N) :=
+  let l' := filter (fun x => negb (N.eqb (fst x) t)) l in
+  match tag with Some g => l' ++ [(t, g)] | None => l' end.
+
+(* SUBSCRIBE (also a repeated one) hands the topic's retained message to the connection *)
+Definition subscribe (s : st) (id : sid) (t : topic) : st * list out :=
   let r := get id (sess s) in
   match s_conn r with
-  | None => s
-  | Some _ =>
+  | None => (s, [])
+  | Some c =>
       let subs := if existsb (N.eqb t) (s_subs r) then s_subs r else s_subs r ++ [t] in
-      mkSt (now s) (put id (mkS (s_conn r) (s_v5 r) (s_durable r) (s_expiry r) subs (s_queue r) (s_present r) (s_expire_at r) (s_will r) (s_will_at r)) (sess s)) (preempt s) (stopped s)
+      (mkSt (now s) (put id (mkS (s_conn r) (s_v5 r) (s_durable r) (s_expiry r) subs (s_queue r) (s_present r) (s_expire_at r) (s_will r) (s_will_at r)) (sess s)) (preempt s) (stopped s) (retained s),
+       map (ODeliver c) (retained_of t (retained s)))
   end.
 
 (* Stop: every attached connection is closed (its will is published: the end is not a client
@@ -174,21 +186,30 @@ Definition stop (s : st) : st * list out :=
     | None => acc
     end in
   let '(s1, os) := fold_left step (sess s) (s, []) in
-  (mkSt (now s1) (sess s1) (preempt s1) true, os ++ [OStopReturned]).
+  (mkSt (now s1) (sess s1) (preempt s1) true (retained s1), os ++ [OStopReturned]).
 
 Definition step (s : st) (e : ev) : st * list out :=
   match e with
   | EConnect c id v5 clean expiry w => if stopped s then (s, []) else connect s c id v5 clean expiry w
-  | ESubscribe id t => (subscribe s id t, [])
+  | ESubscribe id t => subscribe s id t
   | EPublish tag t => publish s tag t
+  | ERetain tag t =>
+      let '(s1, o) := publish s tag t in
+      (mkSt (now s1) (sess s1) (preempt s1) (stopped s1) (set_retained t (Some tag) (retained s1)), o)
+  | EUnretain t => (mkSt (now s) (sess s) (preempt s) (stopped s) (set_retained t None (retained s)), [])
   | EDisconnect id keep_will newexp => conn_end s id keep_will newexp
   | EDrop id => conn_end s id true None
+  | EDropC c id =>
+      match s_conn (get id (sess s)) with
+      | Some c' => if N.eqb c c' then conn_end s id true None else (s, [])
+      | None => (s, [])
+      end
   | ETick dt =>
       let t := now s + dt in
       let '(l, os) := fire_all t (sess s) in
-      (mkSt t l (preempt s) (stopped s), os)
+      (mkSt t l (preempt s) (stopped s) (retained s), os)
   | EStop => stop s
-  | ERestart => (mkSt (now s) (sess s) (preempt s) false, [])
+  | ERestart => (mkSt (now s) (sess s) (preempt s) false (retained s), [])
   end.
 
 Fixpoint run (s : st) (es : list ev) : st * list (list out) :=
@@ -197,4 +218,4 @@ Fixpoint run (s : st) (es : list ev) : st * list (list out) :=
   | e :: r => let '(s1, o) := step s e in let '(s2, os) := run s1 r in (s2, o :: os)
   end.
 
-Definition init (pre : bool) : st := mkSt 0 [] pre false.
+Definition init (pre : bool) : st := mkSt 0 [] pre false [].
